@@ -1,31 +1,26 @@
 #!/usr/bin/env python3
 """run every seeded change under /verif/seeded against the quick check of the property it breaks; writes seeded/RESULTS.json/.md.
-/repo is patched (git apply) and restored (git checkout -- .) around each run; evidence files are preserved."""
-import json, os, shutil, subprocess, sys
+Each run uses its own scratch copy of /repo (VERIF_REPO) with the patch applied, and its own build and evidence directories,
+so /repo and /verif/evidence are never touched and runs go in parallel."""
+import concurrent.futures, json, os, shutil, subprocess, sys, tempfile
 V = os.path.dirname(os.path.dirname(os.path.abspath(__file__)))
 only = sys.argv[1:]
-rows = []
-for sid in sorted(os.listdir(os.path.join(V, "seeded"))):
+
+def one(sid):
     d = os.path.join(V, "seeded", sid)
-    if not os.path.isdir(d) or (only and sid not in only and sid.split("-")[0] not in only):
-        continue
     meta = json.load(open(os.path.join(d, "meta.json")))
     prop = meta["breaks_property"]
-    ev = os.path.join(V, "evidence", prop + ".json")
-    bak = "/tmp/ev_" + prop + ".json"
-    if os.path.exists(ev):
-        shutil.copy(ev, bak)
-    assert subprocess.run(["git", "-C", "/repo", "status", "--porcelain", "--untracked-files=no"], capture_output=True, text=True).stdout.strip() == "", "/repo not clean"
-    ap = subprocess.run(["git", "-C", "/repo", "apply", os.path.join(d, "patch.diff")], capture_output=True, text=True)
-    if ap.returncode != 0:
-        rows.append({"seed": sid, "property": prop, "result": "patch does not apply", "detail": ap.stderr[:200]})
-        continue
+    tmp = tempfile.mkdtemp(prefix="seedrun_")
     try:
-        p = subprocess.run([os.path.join(V, "check"), prop, "--no-kani"], capture_output=True, text=True, cwd=V)
+        repo = os.path.join(tmp, "repo")
+        subprocess.run(["rsync", "-a", "--exclude", "target", "--exclude", ".git", "/repo/", repo + "/"], check=True)
+        ap = subprocess.run(["patch", "-p1", "-s", "-i", os.path.join(d, "patch.diff")], cwd=repo, capture_output=True, text=True)
+        if ap.returncode != 0:
+            return {"seed": sid, "property": prop, "result": "patch does not apply", "detail": (ap.stdout + ap.stderr)[:200]}
+        env = dict(os.environ, VERIF_REPO=repo, VERIF_BUILD=os.path.join(tmp, "build"), VERIF_EVIDENCE_DIR=os.path.join(tmp, "evidence"))
+        p = subprocess.run([os.path.join(V, "check"), prop, "--no-kani"], capture_output=True, text=True, cwd=V, env=env)
     finally:
-        subprocess.run(["git", "-C", "/repo", "checkout", "--", "."])
-        if os.path.exists(bak):
-            shutil.copy(bak, ev)
+        shutil.rmtree(tmp, ignore_errors=True)
     lines = [l for l in p.stdout.split("\n") if l and not l.startswith("KNOWN-FINDING")]
     res = {0: "MISSED (check passes)", 1: "DETECTED", 2: "UNDECIDED"}.get(p.returncode, str(p.returncode))
     detail = ""
@@ -33,8 +28,19 @@ for sid in sorted(os.listdir(os.path.join(V, "seeded"))):
         if l.strip().startswith("failed obligation") or l.startswith("UNDECIDED"):
             detail = l.strip()[:220]
             break
-    rows.append({"seed": sid, "property": prop, "result": res, "detail": detail, "summary": (meta.get("summary") or "")[:200]})
-    print(sid, res, detail[:120], flush=True)
+    return {"seed": sid, "property": prop, "result": res, "detail": detail, "summary": (meta.get("summary") or "")[:200]}
+
+sids = [s for s in sorted(os.listdir(os.path.join(V, "seeded"))) if os.path.isdir(os.path.join(V, "seeded", s)) and (not only or s in only or s.split("-")[0] in only)]
+rows = []
+with concurrent.futures.ThreadPoolExecutor(max_workers=5) as ex:
+    for r in ex.map(one, sids):
+        rows.append(r)
+        print(r["seed"], r["result"], r.get("detail", "")[:120], flush=True)
+if only:
+    # partial run: merge into the existing table
+    old = json.load(open(os.path.join(V, "seeded", "RESULTS.json")))
+    done = {r["seed"] for r in rows}
+    rows = sorted([r for r in old if r["seed"] not in done] + rows, key=lambda r: r["seed"])
 json.dump(rows, open(os.path.join(V, "seeded", "RESULTS.json"), "w"), indent=1)
 with open(os.path.join(V, "seeded", "RESULTS.md"), "w") as f:
     f.write("| seed | property | result of `./check <prop>` with the change applied | first failed obligation / reason |\n|---|---|---|---|\n")
